@@ -553,3 +553,64 @@ Definition progbox_sr (bs : list N) : res (list N * Z * bool) :=
       else Err
   | (Err, _) => Err | (Panic, _) => Panic | (OutOfFuel, _) => OutOfFuel
   end.
+
+(* ------------------------------------------------------------------ extended reader programs (second round) *)
+(* The SR decoders of the delegating pairs found by the source-fact extractor (harness/c03/srcfacts.go) also use
+   ReadZeroTerminatedString / ReadPossiblyZeroTerminatedString, ReadFixedLengthString with computed counts, and the idiom
+   `initPos := sr.GetPos()` (first statement) ... `sr.GetPos() - initPos`.  XRelPos is that idiom: the position relative to
+   where the decoder started (origin = the reader position at entry: 0 on the private body reader, the offset of the body
+   on the caller's reader). *)
+Inductive xprog (A : Type) : Type :=
+| XRet (a : A)
+| XFail
+| XOp (o : rop) (k : rval -> xprog A)
+| XRelPos (k : Z -> xprog A).
+Arguments XRet {A} a.
+Arguments XFail {A}.
+Arguments XOp {A} o k.
+Arguments XRelPos {A} k.
+
+Fixpoint run_xprog {A} (origin : Z) (p : xprog A) (s : rstate) : res (A * rstate) :=
+  match p with
+  | XRet a => Ok (a, s)
+  | XFail => Err
+  | XOp o k => do (v, s1) <- rstep s o; run_xprog origin (k v) s1
+  | XRelPos k => run_xprog origin (k (rpos s - origin)%Z) s
+  end.
+
+(* counts are Go ints (is_int); a fixed-length string needs no further bound (a run that ends without error read it inside the
+   body); the zero-terminated reads compute pos + maxLen: below 2^62 so that the sum does not wrap on the larger buffer;
+   SkipBytes with a negative count moves backwards, possibly before the body: excluded *)
+Definition local_xop (o : rop) : bool :=
+  match o with
+  | RU8 | RU16 | RI16 | RU24 | RU32 | RI32 | RU64 | RI64 | RAccError => true
+  | RFixedStr n => is_int n
+  | RBytes n => true
+  | RSkip n => ((0 <=? n) && (n <? 4611686018427387904))%Z
+  | RZStr m => (is_int m && (m <? 4611686018427387904))%Z
+  | RPZStr m => (is_int m && (m <? 4611686018427387904))%Z
+  | _ => false
+  end.
+Fixpoint local_xprog {A} (p : xprog A) : Prop :=
+  match p with
+  | XOp o k => local_xop o = true /\ forall v, local_xprog (k v)
+  | XRelPos k => forall z, local_xprog (k z)   (* convention: k z = XFail for z outside [0, 2^62): never an offset into a body *)
+  | _ => True
+  end.
+
+Fixpoint xprog_of_sprog {A} (p : sprog A) : xprog A :=
+  match p with
+  | SRet a => XRet a
+  | SFail => XFail
+  | SOp o k => XOp o (fun v => xprog_of_sprog (k v))
+  end.
+
+(* the pair in the form the decoders use it: an optional test on the header alone (`if hdr.Size != 20 { return nil, err }`),
+   repeated at the start of the SR decoder; reader path: readBoxBody, the program on a private reader, whatever it returns;
+   `strict`: the decoder ends with `return b, sr.AccError()` (true) or `return b, nil` (false) *)
+Definition xprog_body_r {A} (guard strict : bool) (p : xprog A) (data : list N) : res A :=
+  if guard then Err else
+  do (a, r') <- run_xprog 0 p (rnew data); if strict && rerr r' then Err else Ok a.
+Definition xprog_sr {A} (guard strict : bool) (p : xprog A) (sr : rstate) : res (A * rstate) :=
+  if guard then Err else
+  do (a, r') <- run_xprog (rpos sr) p sr; if strict && rerr r' then Err else Ok (a, r').
